@@ -23,6 +23,9 @@ directed = st.one_of(
     # exactly one stale checksum, nothing else wrong: a benign field (times, owner, generation-free fields) or the checksum field itself of one inode / descriptor is flipped without fix-up
     st.tuples(st.just(corrupt.CLASSES.index('inode')), st.integers(0, 500), st.sampled_from([i for i, f in enumerate(corrupt.INO_FIELDS) if f[0] in ('atime', 'ctime', 'mtime', 'uid', 'gid', 'csum_lo', 'csum_hi')]),
               st.just(corrupt.KINDS.index('bitflip')), st.integers(0, 31), st.just(False)),
+    # an inode without a block map (fast symlink, device, fifo, socket, inline-data file) made invalid: mode / size / flags / blocks / xattr pointer
+    st.tuples(st.just(corrupt.CLASSES.index('blockless')), st.integers(0, 500), st.sampled_from([i for i, f in enumerate(corrupt.INO_FIELDS) if f[0] in ('mode', 'size', 'flags', 'blocks', 'file_acl', 'links', 'iblock0', 'size_high')]),
+              st.sampled_from(_DIR_KINDS + [corrupt.KINDS.index('bitflip'), corrupt.KINDS.index('random')]), st.integers(0, 1 << 16), st.just(True)),
     # a directory that loses its first (often only) block
     st.tuples(st.just(corrupt.CLASSES.index('dirmap')), st.integers(0, 500), st.integers(0, 6), st.sampled_from(_DIR_KINDS), _VALS, st.just(True)),
     st.tuples(st.just(corrupt.CLASSES.index('eadup')), st.integers(0, 500), st.integers(0, 1), st.just(0), st.integers(0, 500), st.just(True)),
